@@ -22,7 +22,7 @@ From Coupe Require Import Lib.Prelude Lib.SFloat Lib.Report.
 From Coupe Require Import Model.RandomPart Run.RunC01 Proofs.C01Proofs.
 From Coupe Require Proofs.C01Collect.
 From Coupe Require Properties.C03 Properties.C09 Properties.C10 Properties.C13.
-From Coupe Require Proofs.RcbBox Proofs.MultiJaggedTotal.
+From Coupe Require Proofs.RcbBox Proofs.MultiJaggedTotal Proofs.RcbTotalInfInst.
 From Coupe Require Model.Rcb Proofs.RcbInst Model.SfcPart Proofs.ZCurveProofs
   Model.MultiJagged Proofs.MultiJaggedProofs Model.NumPart Model.Greedy Model.Kk Proofs.NumPartLemmas Lib.Sorting
   Model.Ckk Model.GridRcb Proofs.GridRcbTree Proofs.GridRcbMedian Proofs.GridRcbFloat Run.RunC11.
@@ -69,6 +69,18 @@ Theorem C01_rcb_partial : forall fuel (sched : N -> nat -> Rcb.stree) D k tol pt
             /\ length p = length pts /\ Forall (fun i => (i < 2 ^ N.of_nat k)%N) p.
 Proof. exact RcbC.rcb_collect. Qed.
 Print Assumptions C01_rcb_partial.
+
+(* FULL for the coordinates of the usage contract (since dcc53e7 the three
+   `as f32` casts clamp, so every finite f64 has a finite image): every
+   coordinate a finite f64 -- no condition on its magnitude.  Weights i64 (Z). *)
+Theorem C01_rcb_finite_f64 : forall fuel (sched : N -> nat -> Rcb.stree) D k tol pts ws p0,
+  (0 < D)%nat -> length ws = length p0 -> length pts = length p0 ->
+  Forall (fun pt => length pt = D) pts -> RcbTotalInfInst.coords_finite_f64 pts ->
+  Z.of_nat fuel > 2 ^ 34 ->
+  exists p, C03.rcb_impl fuel sched D k tol pts ws p0 = Ok p
+            /\ length p = length pts /\ Forall (fun i => (i < 2 ^ N.of_nat k)%N) p.
+Proof. exact Coupe.Properties.C03.C03_rcb_total_finite_f64. Qed.
+Print Assumptions C01_rcb_finite_f64.
 
 (* Rib = the same function applied to the points rotated into the inertia
    frame.  PARTIAL for the same reason as Rcb (rotated coordinates within the
